@@ -481,7 +481,7 @@ def split_template(tmpl_text, tmpl_path):
     return segs
 
 
-def weave_template(tmpl_path, repo=None, freeze=False):
+def weave_template(tmpl_path, repo=None, freeze=False, sig_only=()):
     """Returns dict(text=generated file text, units=[...], linemap=[(origin, ...)])"""
     tmpl_text = open(tmpl_path).read()
     segs = split_template(tmpl_text, tmpl_path)
@@ -527,6 +527,27 @@ def weave_template(tmpl_path, repo=None, freeze=False):
         u.ghost_runs = len(ins)
         u.ghost_forms = forms
         u.kind = spec.kind
+        u.cur_text = cur_text
+        u.sig_only = False
+        if spec.label in sig_only and spec.kind == 'fn' and not identical:
+            # fallback for a restructured body: keep only the signature-level specification (result name, requires /
+            # ensures / decreases of the function); loop invariants and proof blocks cannot be placed any more
+            bo = None
+            depth = 0
+            seen_fn = False
+            for k, t in enumerate(base):
+                if t.text == 'fn' and depth == 0:
+                    seen_fn = True
+                elif seen_fn and t.text in ('(', '['):
+                    depth += 1
+                elif seen_fn and t.text in (')', ']'):
+                    depth -= 1
+                elif seen_fn and t.text == '{' and depth == 0:
+                    bo = k
+                    break
+            if bo is not None:
+                ins = {p: r for p, r in ins.items() if p <= bo}
+                u.sig_only = True
         woven = transport(base, cur, ins)
         body = ''.join(t.render() for (_, t) in woven) + '\n'
         # by construction: erasing the ghost tokens gives the current text
